@@ -54,6 +54,9 @@ func (aacdp *aacDepacketizer) Depacketize(packet *Packet) (err error) {
 
 func (aacdp *aacDepacketizer) depacketizeFor2ByteAUHeader(packet *Packet) (err error) {
 	payload := packet.Payload()
+	if len(payload) < 2 {
+		return errTruncatedPayload
+	}
 
 	// AU-headers-length 2bytes
 	auHeadersLength := uint16(0) | (uint16(payload[0]) << 8) | uint16(payload[1])
@@ -61,6 +64,9 @@ func (aacdp *aacDepacketizer) depacketizeFor2ByteAUHeader(packet *Packet) (err e
 	auHeadersCount := auHeadersLength >> 4
 	// AU 帧数据偏移位置
 	framesPayloadOffset := 2 + int(auHeadersCount)<<1
+	if framesPayloadOffset > len(payload) {
+		return errTruncatedPayload
+	}
 
 	auHeaders := payload[2:framesPayloadOffset]
 	framesPayload := payload[framesPayloadOffset:]
@@ -68,6 +74,9 @@ func (aacdp *aacDepacketizer) depacketizeFor2ByteAUHeader(packet *Packet) (err e
 	for i := 0; i < int(auHeadersCount); i++ {
 		auHeader := uint16(0) | (uint16(auHeaders[0]) << 8) | uint16(auHeaders[1])
 		frameSize := auHeader >> aacdp.indexLength
+		if int(frameSize) > len(framesPayload) {
+			return errTruncatedPayload
+		}
 		pts := aacdp.rtp2ntp(frameTimeStamp) + ptsDelay
 		frame := &codec.Frame{
 			MediaType: codec.MediaTypeAudio,
